@@ -1,3 +1,93 @@
-From Thunder Require Import Sql.Codec Sql.Live.
-Theorem placeholder : True. Proof. exact I. Qed.
-Print Assumptions placeholder.
+(** C07 - Live SQL: every committed write that changes the rows a live query returns invalidates it,
+    so that once writes stop every live query holds exactly the rows the database now returns for
+    its filter, for any interleaving of registration, reads, commits and binlog delivery; an event
+    that cannot be decoded invalidates every live query on its table.
+    Model: Sql/Live.v on top of the row codec Sql/Codec.v; proofs: Sql/LiveProofs.v. *)
+From Coq Require Import List ZArith String.
+From Thunder Require Import Sql.Codec Sql.CodecProofs Sql.Live Sql.LiveProofs.
+Import ListNotations.
+
+(** Key lemma: the in-memory row tester agrees with SQL WHERE (three-valued logic, [IS NULL] for NULL
+    filter values) for every column kind, NULLs, pointer, tagged and implicitnull columns, for filter
+    values of the column's Go base type. *)
+Theorem tester_agrees_with_where :
+  forall e t f row,
+    Forall2 (fun nd v => desc_ok (snd nd) = true /\ fval_ok e (snd nd) v = true) t row ->
+    filter_based e t f = true ->
+    tester t f (Some row) = sql_where t f row.
+Proof. exact LiveProofs.tester_agrees_with_where. Qed.
+Print Assumptions tester_agrees_with_where.
+
+(** A write that changes what a query returns is matched by the tester on its before or after image:
+    the delivered update invalidates the query. *)
+Theorem write_changes_result_is_seen :
+  forall schema n tbl f d w,
+    select_by (fun f r => tst schema tbl f (Some r)) tbl f (apply_write d w) <>
+    select_by (fun f r => tst schema tbl f (Some r)) tbl f d ->
+    should_invalidate (schema tbl) (mk_resource n tbl f) (update_of w) = true.
+Proof. exact LiveProofs.write_changes_result_is_seen. Qed.
+Print Assumptions write_changes_result_is_seen.
+
+(** Every interleaving (list of labels) of Register / Read / Rerun / Commit / Deliver /
+    DeliverUndecodable from any initial database and any set of live queries: at quiescence (all
+    events delivered, every query has completed a run whose registration has not been invalidated)
+    each live query holds what the tester-based SELECT returns on the final database ... *)
+Theorem quiescent_live_queries_are_current :
+  forall schema d qs ls s,
+    run schema true (initial d qs) ls = Some s -> quiescent s = true ->
+    Forall (fun q => q_held q = sel schema q (s_db s)) (s_queries s).
+Proof. exact LiveProofs.quiescent_current. Qed.
+Print Assumptions quiescent_live_queries_are_current.
+
+(** ... which is what SQL returns for the filter on a database of typed rows. *)
+Theorem tester_select_is_sql_select :
+  forall e schema tbl f d,
+    filter_based e (schema tbl) f = true ->
+    Forall (fun x => fst x = tbl -> row_typed e (schema tbl) (snd x)) d ->
+    select_by (fun f r => tst schema tbl f (Some r)) tbl f d =
+    select_by (fun f r => sql_where (schema tbl) f r) tbl f d.
+Proof. exact LiveProofs.select_tester_is_select_sql. Qed.
+Print Assumptions tester_select_is_sql_select.
+
+(** An undecodable event invalidates every registered live query on its table (after C07-fix-1). *)
+Theorem undecodable_event_invalidates_table :
+  forall schema s s' w i q,
+    nth_error (s_log s) (s_delivered s) = Some (w, false) ->
+    step schema true s DeliverUndecodable = Some s' ->
+    nth_error (s_queries s) i = Some q -> registered q = true -> q_table q = w_table w ->
+    exists q', nth_error (s_queries s') i = Some q' /\ q_invalid q' = true.
+Proof. exact LiveProofs.undecodable_invalidates. Qed.
+Print Assumptions undecodable_event_invalidates_table.
+
+(** F20, the code before C07-fix-1: the event is dropped, the system is quiescent and the live query
+    holds rows the database no longer returns. *)
+Theorem undecodable_event_dropped_refuted_before_fix :
+  exists d qs ls s,
+    run toy_schema false (initial d qs) ls = Some s /\ quiescent s = true /\
+    exists q, In q (s_queries s) /\ q_held q <> sel toy_schema q (s_db s).
+Proof. exact LiveProofs.undecodable_dropped_refuted. Qed.
+Print Assumptions undecodable_event_dropped_refuted_before_fix.
+
+(** Link to the row codec (C13): the rows event MySQL produces for a committed write (images in MySQL
+    column order, any representation the binlog decoder hands back) decodes, through the column map,
+    to exactly the update the transition system delivers. *)
+Theorem faithful_event_decodes_to_the_write :
+  forall fx e t cols w k rows,
+    env_laws e -> event_of e t cols w k rows ->
+    poll_loop_update fx e (t, fst (column_map t cols), snd (column_map t cols)) (w_table w) k rows = Some (update_of w).
+Proof. exact LiveProofs.faithful_event_decodes. Qed.
+Print Assumptions faithful_event_decodes_to_the_write.
+
+(** Non-vacuity: a history with a write committed between registration and read, delayed delivery, a
+    re-run, and quiescence at the end. *)
+Example quiescent_history_exists :
+  match run toy_schema true
+            (initial [("users"%string, [FVal (GInt 1)])]
+                     [("users"%string, [("id"%string, Dyn (BInt 64) false (FVal (GInt 2)))])])
+            [Register 0; Commit (mk_write "users" None (Some [FVal (GInt 2)])) true; Read 0; Deliver; Rerun 0;
+             Commit (mk_write "users" (Some [FVal (GInt 2)]) (Some [FVal (GInt 3)])) true; Register 0; Read 0;
+             Deliver; Rerun 0; Register 0; Read 0] with
+  | Some s => quiescent s = true /\ map q_held (s_queries s) = [[]] /\ List.length (s_db s) = 2
+  | None => False
+  end.
+Proof. vm_compute. repeat split; reflexivity. Qed.
